@@ -539,6 +539,9 @@ def main(argv=None):
             for term, mo, io in zip(cterms, m_co, cimpl):
                 if mo != io:
                     ck.disagreement("codec", f"{term}: model {mo[:30]} impl {io[:30]}", {"term": term, "model": mo, "impl": io})
+    # ---- the JSON text layer: Model/Json.v, Props/C01Json.v vs json.dumps / json.loads / to_json_str (harness/jsonmodel.py)
+    from . import jsonmodel
+    jsonmodel.json_check(ck)
     ck.trusted += ["in-Coq evaluation route: harness/floatcases.py writes cases files, coqc evaluates them with vm_compute "
                    "(kernel primitive floats = hardware binary64), textual normal forms parsed back",
                    "oracles (not modelled): iso8601.parse_date outside the YYYY-MM-DD[T ]HH:MM:SS[.f][Z|+-HH:MM] subset, "
